@@ -142,12 +142,12 @@ def _semantics(leaf_ops, qubits):
     return "S", S
 
 
-def _sem_equal(ref, got):
+def _sem_equal(ref, got, tol=TOL):
     if ref[0] != got[0]:
         return False
     if ref[0] == "U":
-        return E.eq_up_to_phase(ref[1], got[1], TOL)
-    return E.eq_exact(ref[1], got[1], TOL)
+        return E.eq_up_to_phase(ref[1], got[1], tol)
+    return E.eq_exact(ref[1], got[1], tol)
 
 
 def _alphabet_a(seed):
@@ -244,7 +244,61 @@ def _gatesets(seed):
         if add:
             nat.append(cirq.CCX(c, a, b))
         out.append((f"Pasqal(add={add})", cirq_pasqal.PasqalGateset(include_additional_controlled_ops=add), nat, False))
+    # reorder_operations=True (legal only with preserve_moment_structure=False): the only option that puts
+    # insertion_sort_transformer into the preprocess stage.  Full members: whole alphabet, a1 and a3.
+    for partial in (False, True):
+        out.append((f"CZ(partial={partial},pms=False,reorder=True)",
+                    cirq.CZTargetGateset(allow_partial_czs=partial, preserve_moment_structure=False, reorder_operations=True),
+                    [cirq.CZ(b, a), cirq.CZ(c, b)], False))
+    # option lattice of the constructors (stage a4, reduced alphabet): CZTargetGateset(allow_partial_czs x (pms, reorder)
+    # legal combos x additional_gates x atol), SqrtIswapTargetGateset(count x inv x additional_gates x atol),
+    # GoogleCZTargetGateset(eject_paulis x additional_gates x atol; eject only together with the Pauli families)
+    paulis = [cirq.XPowGate, cirq.YPowGate, cirq.ZPowGate, cirq.PhasedXPowGate]
+    for partial in (False, True):
+        for pms, ro in ((True, False), (False, False), (False, True)):
+            for an, add_g in (("none", ()), ("CNOT", (cirq.CNOT,)), ("ISwapPow+H", (cirq.ISwapPowGate, cirq.H))):
+                for atol in (1e-8, 1e-6):
+                    out.append((f"CZ(partial={partial},pms={pms},reorder={ro},add={an},atol={atol})",
+                                cirq.CZTargetGateset(atol=atol, allow_partial_czs=partial, additional_gates=add_g,
+                                                     preserve_moment_structure=pms, reorder_operations=ro),
+                                [], "lattice"))
+    for cnt in (None, 2, 3):
+        for inv in (False, True):
+            for an, add_g in (("none", ()), ("CZPow+H", (cirq.CZPowGate, cirq.H))):
+                for atol in (1e-8, 1e-6):
+                    out.append((f"SqrtIswap(count={cnt},inv={inv},add={an},atol={atol})",
+                                cirq.SqrtIswapTargetGateset(atol=atol, required_sqrt_iswap_count=cnt, use_sqrt_iswap_inv=inv,
+                                                            additional_gates=add_g), [], "lattice"))
+    for eject in (False, True):
+        for an, add_g in (("none", ()), ("paulis", tuple(paulis)), ("paulis+SQRT_ISWAP", tuple(paulis) + (cirq.SQRT_ISWAP,))):
+            if eject and an == "none":
+                continue  # outside the statement: ejected Pauli gates are deliberately left in the output
+            for atol in (1e-8, 1e-6):
+                out.append((f"GoogleCZ(eject={eject},add={an},atol={atol})",
+                            cirq_google.GoogleCZTargetGateset(atol=atol, eject_paulis=eject, additional_gates=list(add_g)),
+                            [], "lattice"))
     return out
+
+
+# letters of the option-lattice stage: two-qubit letters on the overlapping pairs (a,b) / (b,c) in both orders, one-qubit
+# letters on the shared and on the outer qubits, a generic (a,c) gate, a measurement and an ignored-tag op
+_LATTICE_NAMES = ("H(b)", "X(a)", "Y(c)^.5", "CNOT(a,b)", "CNOT(b,a)", "CZ(a,b)", "CZ(b,c)^g", "SWAP(b,c)", "ISWAP(a,b)",
+                  "SQRT_ISWAP(b,c)", "M2(a,c)", "meas(a,b;m)", "nc:ISWAP(a,b)^g")
+
+
+def _cases_lattice(tier, seed):
+    _init_a(seed)
+    idxs = _idx(_LATTICE_NAMES)
+    seqs = [(i,) for i in idxs] + list(itertools.product(idxs, repeat=2))
+    if tier == "thorough":
+        seqs += list(itertools.product(idxs, repeat=3))
+    cases = []
+    for seq in seqs:
+        for gi, (gname, gs, nat, flag) in enumerate(_A["GS"]):
+            if flag == "lattice":
+                for pi in ((0, 1) if tier == "thorough" else (0,)):
+                    cases.append((gi, pi, 0, tuple(seq)))
+    return cases
 
 
 PASSES = (1, None)
@@ -393,8 +447,9 @@ def _run_compile(case):
     ref_leaves = [op for l in letters for op in (l[2] or [l[1]])]
     ref = _semantics(ref_leaves, QA)
     got = _semantics(out_leaves, QA)
-    if not _sem_equal(ref, got):
-        return bad(f"compiled circuit is not equivalent to the input (tolerance {TOL}): {desc}\n{out}",
+    tol = max(TOL, 100 * getattr(gs, "atol", 0.0))  # the gateset's own atol bounds the error of each decomposition
+    if not _sem_equal(ref, got, tol):
+        return bad(f"compiled circuit is not equivalent to the input (tolerance {tol}): {desc}\n{out}",
                    kind="not_equivalent", gateset=gname.split("(")[0])
     nontrivial = len(seq) >= 2 or any(not gs.validate(op) for op in in_ops)
     return good(nontrivial=nontrivial, compiled=1, out_ops=len(out_leaves))
@@ -1618,15 +1673,18 @@ def stages(tier, seed):
     _init_c(seed)
     st = []
     nrows = len(_membership_table(seed))
-    st.append(CaseStage("a0_gateset_membership", [(gi, ri) for gi in range(len(_A["GS"])) for ri in range(nrows)],
+    st.append(CaseStage("a0_gateset_membership", [(gi, ri) for gi in range(len(_A["GS"])) if _A["GS"][gi][3] != "lattice" for ri in range(nrows)],
                         _timed(_run_membership)))
     # small chunks: the cost of a case varies from 0.3 ms to 100 ms
     st.append(CaseStage("a1_compile_fast_targets", _cases_compile(tier, seed, slow=False), _timed(_run_compile),
                         describe=_describe_compile, chunk=48))
     st.append(CaseStage("a2_compile_slow_targets", _cases_compile(tier, seed, slow=True), _timed(_run_compile),
                         describe=_describe_compile, chunk=16))
-    vcases = [(gi, pi, 0, seq) for seq in _variant_circuits() for gi in range(len(_A["GS"])) for pi in range(len(PASSES))]
+    vcases = [(gi, pi, 0, seq) for seq in _variant_circuits() for gi in range(len(_A["GS"])) if _A["GS"][gi][3] != "lattice"
+              for pi in range(len(PASSES))]
     st.append(CaseStage("a3_compile_fastpath_variants", vcases, _timed(_run_compile), describe=_describe_compile, chunk=32))
+    st.append(CaseStage("a4_compile_option_lattice", _cases_lattice(tier, seed), _timed(_run_compile),
+                        describe=_describe_compile, chunk=32))
     st.append(CaseStage("b1_route_letter_sequences", _cases_route_letters(tier), _timed(_run_route_letters)))
     st.append(CaseStage("b2_route_all_placements", _cases_route_placements(tier, False), _timed(_run_route_placements)))
     st.append(CaseStage("b3_route_directed_graphs", _cases_route_placements(tier, True), _timed(_run_route_placements)))
